@@ -100,6 +100,8 @@ pub struct DocProp {
 }
 
 pub fn no_tweak(_: &mut GenCfg, _: &mut Rng) {}
+const WIDE_NAMES: [&str; 20] = ["w0", "w1", "w2", "w3", "w4", "w5", "w6", "w7", "w8", "w9", "w10", "w11", "w12", "w13", "w14", "w15", "w16", "w17", "W1", "w-1"];
+const WIDE_ATTRS: [&str; 14] = ["a0", "a1", "a2", "a3", "a4", "a5", "a6", "a7", "a8", "a9", "a10", "a11", "a12", "a_1"];
 
 /// corpus/<property>.txt: document sequences replayed first on every run.  Blocks are separated
 /// by a line `---`; in a block, `# ...` is a note, `@signature X` names the known finding the
@@ -200,10 +202,37 @@ pub fn run_docprop(ctx: &mut Ctx, p: DocProp) {
         g.max_kids = rng.range(1, 6);
         g.max_nodes = rng.range(4, 30);
         (p.tweak)(&mut g, &mut rng);
-        let k = rng.range(1, p.max_docs);
-        let root = *rng.pick(&names[..names.len().min(2)]);
+        let mut k = rng.range(1, p.max_docs);
+        let mut kind = "random-seq";
+        // size classes beyond the usual bounds: anything keyed on a count, an index or a depth
+        // (a position >= 10, a u8, a recursion limit) needs them to show
+        match i % 40 {
+            7 | 27 => {
+                kind = "random-wide";
+                g.names = WIDE_NAMES.iter().take(rng.range(11, WIDE_NAMES.len())).map(|x| x.to_string()).collect();
+                g.attrs = WIDE_ATTRS.iter().take(rng.range(6, WIDE_ATTRS.len())).map(|x| x.to_string()).collect();
+                g.max_kids = rng.range(10, 18);
+                g.max_depth = 2;
+                g.max_nodes = 60;
+                g.p_empty = 100;
+            }
+            13 => {
+                kind = "random-deep";
+                g.max_depth = rng.range(7, 12);
+                g.max_kids = 2;
+                g.max_nodes = 60;
+                g.p_empty = 30;
+            }
+            33 => {
+                kind = "random-many-docs";
+                k = rng.range(5, 9);
+                g.max_nodes = 10;
+            }
+            _ => {}
+        }
+        let root = if kind == "random-wide" { "w0" } else { *rng.pick(&names[..names.len().min(2)]) };
         let docs: Vec<Vec<Node>> = (0..k).map(|_| gen_doc(&mut rng, &g, root)).collect();
-        cases.push((docs, "random-seq"));
+        cases.push((docs, kind));
     }
     for (docs, kind) in cases {
         let bytes = serialise(&docs, &mut rng);
